@@ -739,6 +739,7 @@ fn visit_variable_definitions<'a, V: Visitor<'a>>(
 ) {
     for d in variable_definitions {
         v.enter_variable_definition(ctx, d);
+        visit_directives(v, ctx, &d.node.directives);
         v.exit_variable_definition(ctx, d);
     }
 }
